@@ -6,6 +6,7 @@ import ast
 
 from sa.cfg import cfg_of
 from sa.facts import is_status, loads_of, result_sites, tuple_return_statuses
+from sa.guards import atoms as _atoms
 from sa.guards import GuardView, atom_of, names_in
 from sa.index import own_nodes
 from sa.report import Ctx
@@ -304,7 +305,7 @@ def check_interior(ctx: Ctx):
         if "OPTIMAL" in sts:
             trivial = any(a.startswith("OR(") and "0 == m" in a and "0 == n" in a for a in at) or atom_of("m == 0") in at or atom_of("n == 0") in at
             if trivial:
-                ctx.ob("C03-O3", "R1 STATUS-GUARD", f, f"Result#{k} OPTIMAL for the empty problem", True, "", node=s.call)
+                ctx.ob("C03-O3", "R1 STATUS-GUARD", f, f"Result#{k} OPTIMAL for a problem without variables only when no right-hand side is negative", "F:any((bi < 0 for bi in b))" in gv.guard_atoms(s.node, stable_only=False), "the left-hand sides of a variable-free LP are 0: with a negative right-hand side it is infeasible, and OPTIMAL would be given for a point that violates a constraint", node=s.call)
                 continue
             n_opt += 1
             in_loop = s.node.loop is not None
@@ -323,7 +324,18 @@ def check_interior(ctx: Ctx):
             ctx.ob("C03-O3", "R1 STATUS-GUARD", f, f"Result#{k} OPTIMAL dominated by complementarity gap < eps", has_gap, f"convergence atoms {sorted(conv)}", node=s.call)
         if "FEASIBLE" in sts:
             tol_ok = False
-            for a in at:
+            at_f = set(at)
+            st_e = s.arg("status")
+            if isinstance(st_e, ast.Name):
+                dd = [d.value for d in own_nodes(f.node) if isinstance(d, ast.Assign) and ast.unparse(d.targets[0]) == st_e.id]
+                st_e = dd[0] if len(dd) == 1 else st_e
+            if isinstance(st_e, ast.IfExp):
+                # status chosen by a conditional expression: FEASIBLE holds under the polarity of its own branch
+                if ast.unparse(st_e.body) == "Status.FEASIBLE":
+                    at_f |= _atoms(st_e.test, True)
+                elif ast.unparse(st_e.orelse) == "Status.FEASIBLE":
+                    at_f |= _atoms(st_e.test, False)
+            for a in at_f:
                 parts = a.split(" < ")
                 if len(parts) == 2:
                     try:
@@ -559,7 +571,31 @@ def _t_eq_optimal(tree):
     M.replace_stmt(g, lambda s: isinstance(s, ast.If) and M.src_is(s.test, "status == Status.MAX_ITER"), M.stmts("if status != Status.OPTIMAL:\n    return status, iters, matrix, basis, basis_set"))
 
 
+def _t_ipm_result_helper(tree):
+    g = M.find_func(tree, "solve_lp_interior")
+    n = M.replace_expr(g, lambda e: isinstance(e, ast.Call) and M.src_is(e.func, "Result") and M.src_has(e, "Status.OPTIMAL") and M.src_has(e, "iteration"), M.expr("_pack(solution, objective, iteration, Status.OPTIMAL)"))
+    if not n:
+        raise M.Skip("OPTIMAL publication not found")
+    tree.body.append(M.stmts("def _pack(point, value, iters, status):\n    return Result(point, value, iters, iters, status)")[0])
+
+
+def _v_ipm_result_helper_unsigned_cost(tree):
+    g = M.find_func(tree, "solve_lp_interior")
+    n = M.replace_stmt(g, lambda s: isinstance(s, ast.Return) and M.src_has(s, "Status.OPTIMAL") and M.src_has(s, "iteration"), M.stmts("return _make(x, c, n, minimize, iteration, Status.OPTIMAL)"))
+    if not n:
+        raise M.Skip("OPTIMAL publication not found")
+    tree.body.append(M.stmts("def _make(x, cost, n, minimize, iters, status):\n    solution = tuple(max(0.0, x[j]) for j in range(n))\n    objective = sum(cost[j] * solution[j] for j in range(n))\n    if not minimize:\n        objective = -objective\n    return Result(solution, objective, iters, iters, status)")[0])
+
+
+def _v_ipm_no_variables_ignores_b(tree):
+    g = M.find_func(tree, "solve_lp_interior")
+    M.replace_stmt(g, lambda s: isinstance(s, ast.If) and M.src_has(s.test, "bi < 0"), [])
+
+
 VARIANTS = [
+    M.Variant("interior point calls a variable-free LP OPTIMAL without looking at b (original defect)", IP, _v_ipm_no_variables_ignores_b, "C03-O3"),
+    M.Variant("twin: the OPTIMAL Result is built by a new helper that only packages its arguments", IP, _t_ipm_result_helper, None),
+    M.Variant("Result construction moved into a helper that flips the sign itself; the OPTIMAL site hands it the unsigned cost (seed C03-J)", IP, _v_ipm_result_helper_unsigned_cost, "C03-O"),
     M.Variant("phase-1 inner status dropped (original defect)", SX, _v_status_dropped, "C03-O1"),
     M.Variant("solve_lp publishes literal INFEASIBLE for any non-OPTIMAL phase 1", SX, _v_literal_infeasible, "C03-O2"),
     M.Variant("iteration limit reported as OPTIMAL", SX, _v_maxiter_as_optimal, "C03-O2"),
